@@ -53,6 +53,7 @@ def run(F, rep, tier):
     c05.start_rules(F, rep)
     import_pass(F, rep)
     chained_namespace(F, rep)
+    found_member_is_the_answer(F, rep)
     _split_keeps_initialisation_order(F, rep)
     file_ids_unique(F, rep)
     # every global of every loaded file is ordered, checked and initialised - the walk over the globals starts from all of them,
@@ -346,6 +347,15 @@ def import_names(F, rep):
                 rep.ob("IMPORT-NAME", "FromUse|key", key == "var.name" and var_src == "import_as.as_ref().unwrap_or(import_name)",
                        "`from f use x as y`: visible as the alias if given, else as the imported name (key %s, var = %s)" % (key, var_src), line_of(arm))
                 gets = [pp(peel_clone(c["args"][0])) for c in nodes(arm["body"], "MethodCall") if c["m"] == "get" and "from_ns" in pp(c["recv"])]
+                # .. and what becomes visible is the binding that was found, as it is: a namespace stays the namespace of *its* file
+                # (rebuilt around the module named in the `from`, `circle.unit` means a global of the exporter)
+                made = [c for c in nodes(arm["body"], "Call") if (callee(c) or "").endswith(("Name::Namespace", "Name::Name"))
+                        and not any(p_.get("k") in ("Pat",) for p_ in [c])]
+                rep.ob("IMPORT-NAME", "FromUse|binding-copied-as-found", not made,
+                       "`from f use x` makes x mean what it means in f: the binding is copied, never rebuilt" if not made else
+                       "the FromUse arm builds a binding of its own (`%s`) instead of copying the one it found: a namespace that a module "
+                       "re-exports (`from shapes/ use circle`) then stands for another file than the one it named in the exporter, and "
+                       "`circle.unit` reads that file's global" % pp(made[0])[:60], line_of(made[0]) if made else line_of(arm))
                 rep.ob("IMPORT-NAME", "FromUse|source-name", gets == ["import_name.name"], "the imported thing is looked up by its own name in the source file (%s)" % gets, line_of(arm))
             if v == "Use":
                 entries = [c for c in nodes(arm["body"], "MethodCall") if c["m"] == "entry"]
@@ -615,6 +625,39 @@ def chained_namespace(F, rep, rule="ISOLATION"):
                "Resolver::%s looks the member of a qualified name up in a namespace that does not come from resolving its "
                "prefix (the current file's own): `a.b.x` finds the importing file's `b` instead of a's" % fname,
                bad[0] if bad else fn["sp"])
+
+
+def found_member_is_the_answer(F, rep, rule="ISOLATION"):
+    """`ns.name` - as a value, an assignment target or a type - means whatever the namespace `ns` binds `name` to: its own
+    definitions and what it imported with `from .. use` alike (a module can hand a type on).  Where the resolver looks a member up with
+    lookup_global and splits on the result, the arm for a found name has no condition of its own and is no error."""
+    n = 0
+    for fname in ("assignable", "ty_assignable", "expression", "ty"):
+        fn = F.fns.get(R + fname)
+        if fn is None:
+            continue
+        for m in nodes(fn_body(fn), "Match"):
+            sc = peel(m["scrut"])
+            if not any(callee(c) == R + "lookup_global" for c in nodes(sc) if c.get("k") == "MethodCall"):
+                continue
+            from hir import ppat as _ppat
+            hits = [a for a in m["arms"] if "Name::Name(" in _ppat(a["pat"])]
+            if not hits:
+                continue
+            n += 1
+            bad = [a for a in hits if a.get("guard") is not None or tc_err(a["body"])]
+            rep.ob(rule, "%s|member-found-in-the-namespace-is-taken#%d" % (fname, n), not bad,
+                   "a name the namespace binds is the answer, without a further test" if not bad else
+                   "Resolver::%s does not take every name the namespace binds (`%s`): a type or value a module imported with `from .. use` "
+                   "and hands on is `not found` when it is written with the module's name in front (`facade.Point` in an annotation), "
+                   "while the unqualified or unannotated program compiles" % (fname, (pp(bad[0]["guard"]) if bad[0].get("guard") is not None else "an error arm")[:70]),
+                   line_of(bad[0]) if bad else line_of(m))
+    rep.floor(rule, "case splits on the result of a member lookup", n, 2)
+
+
+def tc_err(e):
+    import tc as _tc
+    return _tc.is_err_value(e) or ("Err" in pp(e)[:200] and any(r.get("k") == "Ret" for r in nodes(e)))
 
 
 def _is_parent_of(e, params):
